@@ -193,6 +193,27 @@ def set_value_sanitised(ctx, rule='A6'):
     ctx.ob(rule, fkey(fn, rule, 'linked-continuous-relative'), cont_ok, f'{fn.module.relpath}:{s.lineno}',
            'the value propagated to a linked continuous node is lower + fraction*(upper-lower) of that node '
            '(fraction in [0, 1] from the corrected value)', '; '.join(txts)[:200])
+    # every linked node receives a value computed from the *driving* node's corrected value: what the loop over the
+    # linked nodes reads from before the loop (the corrected value, its relative position) is not re-assigned inside
+    # it - otherwise the value clamped for one linked node is what the next one is computed from
+    carried = []
+    for u in unit_functions(ctx.prog, fn):
+        for lp in [x for x in ast.walk(u.node) if isinstance(x, ast.For)]:
+            body_nodes = [x for st_ in lp.body for x in ast.walk(st_)]
+            if not any(isinstance(x, ast.Call) and call_name(x) == 'correct_value' for x in body_nodes):
+                continue
+            stored = {x.id for x in body_nodes if isinstance(x, ast.Name) and isinstance(x.ctx, ast.Store)}
+            loaded = {x.id for x in body_nodes if isinstance(x, ast.Name) and isinstance(x.ctx, ast.Load)}
+            before = set(u.params) | {x.id for x in ast.walk(u.node) if isinstance(x, ast.Name) and
+                                      isinstance(x.ctx, ast.Store) and x.lineno < lp.lineno}
+            tg = {x.id for x in ast.walk(lp.target) if isinstance(x, ast.Name)}
+            carried += [(u, lp, nm) for nm in sorted((stored & loaded & before) - tg)]
+    ctx.ob(rule, fkey(fn, rule, 'linked-values-from-the-driving-value'), not carried, fn.where,
+           'inside the loop over the linked nodes nothing that was computed from the driving node before the loop is '
+           're-assigned (each linked value is a function of the driving value, not of the previous linked value)',
+           'no loop-carried value' if not carried else
+           f'`{carried[0][2]}` is assigned before the loop at L{carried[0][1].lineno} and re-assigned inside it: the '
+           f'next linked node is computed from the previous node\'s clamped value')
     # the fraction comes from correct_value's second result
     frac = [a for a in walk_fn(fn) if isinstance(a, ast.Assign) and isinstance(a.targets[0], ast.Tuple) and
             'bounds_fraction' in norm(a.targets[0]) and 'correct_value' in norm(a.value)]
